@@ -18,6 +18,8 @@ using model::JVal;
 
 using SDoc = GenericDocument<DNode<SimpleAllocator>>;
 using Pool = MemoryPoolAllocator<SimpleAllocator>;
+using PoolA = MemoryPoolAllocator<SimpleAllocator, AdaptiveChunkPolicy>;   // the other chunk policy: it has state of its own
+using DocA = GenericDocument<DNode<PoolA>>;
 
 struct Blk { char* p; size_t n; uint32_t tag; size_t ext; };
 struct Ctx {
@@ -27,6 +29,7 @@ struct Ctx {
   std::string error;
   // private state
   Document* doc = nullptr;      // family a: own pool; family c: shares the pool
+  DocA* doca = nullptr;         // family c with the adaptive chunk policy
   SDoc* sdoc = nullptr;
   std::vector<Blk> blocks;      // family c
 };
@@ -35,6 +38,7 @@ struct Shared {
   Document* shared_doc = nullptr;  // family b
   SDoc* shared_sdoc = nullptr;
   Pool* pool = nullptr;            // family c
+  PoolA* poola = nullptr;          // family c, adaptive chunk policy
 };
 
 static void paint(char* p, size_t n, uint32_t tag) { for (size_t i = 0; i < n; i++) p[i] = (char)(tag * 29 + i * 13); }
@@ -73,6 +77,45 @@ template <class D> static std::string read_op(const D& d, const Op& op) {
   return "?";
 }
 
+template <class P, class D> static std::string pool_op(P& pool, D& doc, Ctx& c, const Op& op) {
+  using N = typename std::remove_reference<decltype(*doc.AtPointer())>::type;
+  const std::string& k = op.kind;
+  if (k == "Malloc") {
+    size_t n = (size_t)op.A(1);
+    char* p = (char*)pool.Malloc(n);
+    if (n == 0) return p ? "nonnull0" : "z";
+    if (!p) return "null";
+    if ((uintptr_t)p & 7) c.error = "Malloc returned a misaligned block";
+    Blk b{p, n, (uint32_t)(c.tid * 100000 + c.blocks.size() + 1), (n + 7) & ~(size_t)7};
+    paint(p, n, b.tag); c.blocks.push_back(b);
+    return "m";
+  }
+  if (k == "Realloc") {
+    if (c.blocks.empty()) return "nob";
+    size_t bi = (size_t)((uint64_t)op.A(1) % c.blocks.size());
+    Blk& b = c.blocks[bi];
+    size_t n = (size_t)op.A(2);
+    if (n == 0) return "z";
+    char* p = (char*)pool.Realloc(b.p, b.n, n);
+    if (!p) return "null";
+    size_t keep = b.n < n ? b.n : n;
+    if (!painted(p, keep, b.tag)) c.error = "Realloc result lost the old contents (thread " + std::to_string(c.tid) + ")";
+    if (p != b.p) { Blk nb{p, n, (uint32_t)(c.tid * 100000 + 50000 + c.blocks.size()), (n + 7) & ~(size_t)7}; paint(p, n, nb.tag); c.blocks.push_back(nb); return "r"; }
+    size_t ne = (n + 7) & ~(size_t)7;
+    if (ne > b.ext) b.ext = ne;
+    b.n = n; b.tag += 7; paint(b.p, n, b.tag);
+    return "r";   // in place or moved: legitimately schedule dependent
+  }
+  if (k == "DocParse") { doc.Parse(op.S(0)); return doc.HasParseError() ? "e" : doc.Dump(); }
+  if (k == "DocAdd") {
+    if (!doc.IsObject()) doc.SetObject();
+    doc.AddMember(StringView(op.S(0)), N((int64_t)op.A(1)), doc.GetAllocator());
+    return doc.Dump();
+  }
+  if (k == "Dump") return doc.Dump();
+  return "?";
+}
+
 static std::string exec_one(Shared& sh, Ctx& c, const Op& op) {
   const std::string& k = op.kind;
   if (k == "OnDemand") {
@@ -96,44 +139,18 @@ static std::string exec_one(Shared& sh, Ctx& c, const Op& op) {
       return "a";
     }
     if (k == "Map") { if (c.doc->IsObject()) c.doc->CreateMap(c.doc->GetAllocator()); return "m"; }
+    if (k == "IndexWrite") {   // operator[] of a missing key hands out a reference; using it must stay a thread-private affair
+      std::string r;
+      if (c.doc->IsObject()) { auto& v = (*c.doc)[StringView(op.S(0))]; bool miss = !c.doc->HasMember(StringView(op.S(0))); if (miss) { v.SetInt64(op.A(1)); r += v.IsInt64() && v.GetInt64() == op.A(1) ? "w" : "W"; } else r += "h"; }
+      if (c.sdoc->IsObject()) { auto& v = (*c.sdoc)[StringView(op.S(0))]; bool miss = !c.sdoc->HasMember(StringView(op.S(0))); if (miss) { v.SetInt64(op.A(1)); r += v.IsInt64() && v.GetInt64() == op.A(1) ? "w" : "W"; } else r += "h"; }
+      return r;
+    }
     if (op.A(1) & 1) return read_op(*c.sdoc, op);
     return read_op(*c.doc, op);
   }
   // family 2: one shared locked pool
-  if (k == "Malloc") {
-    size_t n = (size_t)op.A(1);
-    char* p = (char*)sh.pool->Malloc(n);
-    if (n == 0) return p ? "nonnull0" : "z";
-    if (!p) return "null";
-    if ((uintptr_t)p & 7) c.error = "Malloc returned a misaligned block";
-    Blk b{p, n, (uint32_t)(c.tid * 100000 + c.blocks.size() + 1), (n + 7) & ~(size_t)7};
-    paint(p, n, b.tag); c.blocks.push_back(b);
-    return "m";
-  }
-  if (k == "Realloc") {
-    if (c.blocks.empty()) return "nob";
-    size_t bi = (size_t)((uint64_t)op.A(1) % c.blocks.size());
-    Blk& b = c.blocks[bi];
-    size_t n = (size_t)op.A(2);
-    if (n == 0) return "z";
-    char* p = (char*)sh.pool->Realloc(b.p, b.n, n);
-    if (!p) return "null";
-    size_t keep = b.n < n ? b.n : n;
-    if (!painted(p, keep, b.tag)) c.error = "Realloc result lost the old contents (thread " + std::to_string(c.tid) + ")";
-    if (p != b.p) { Blk nb{p, n, (uint32_t)(c.tid * 100000 + 50000 + c.blocks.size()), (n + 7) & ~(size_t)7}; paint(p, n, nb.tag); c.blocks.push_back(nb); return "r"; }
-    size_t ne = (n + 7) & ~(size_t)7;
-    if (ne > b.ext) b.ext = ne;
-    b.n = n; b.tag += 7; paint(b.p, n, b.tag);
-    return "r";   // in place or moved: legitimately schedule dependent
-  }
-  if (k == "DocParse") { c.doc->Parse(op.S(0)); return c.doc->HasParseError() ? "e" : c.doc->Dump(); }
-  if (k == "DocAdd") {
-    if (!c.doc->IsObject()) c.doc->SetObject();
-    c.doc->AddMember(StringView(op.S(0)), Node((int64_t)op.A(1)), c.doc->GetAllocator());
-    return c.doc->Dump();
-  }
-  if (k == "Dump") return c.doc->Dump();
-  return "?";
+  if (sh.poola) return pool_op(*sh.poola, *c.doca, c, op);
+  return pool_op(*sh.pool, *c.doc, c, op);
 }
 
 static void worker(Shared* sh, Ctx* c) {
@@ -167,16 +184,17 @@ static void setup(const Plan& p, Shared& sh, std::vector<Ctx>& ctx, bool referen
       if ((op.A(0) & 1) && sh.shared_doc->IsObject()) { sh.shared_doc->CreateMap(sh.shared_doc->GetAllocator()); sh.shared_sdoc->CreateMap(sh.shared_sdoc->GetAllocator()); }
     }
   }
-  if (sh.family == 2) sh.pool = new Pool((size_t)p.K("chunk", 256));
+  bool adaptive = p.K("adaptive", 0) != 0;
+  if (sh.family == 2) { if (adaptive) sh.poola = new PoolA((size_t)p.K("chunk", 256)); else sh.pool = new Pool((size_t)p.K("chunk", 256)); }
   for (auto& c : ctx) {
     if (sh.family == 0) { c.doc = new Document(); c.sdoc = new SDoc(); }
-    if (sh.family == 2) c.doc = new Document(sh.pool);
+    if (sh.family == 2) { if (adaptive) c.doca = new DocA(sh.poola); else c.doc = new Document(sh.pool); }
   }
   (void)reference;
 }
 static void cleanup(Shared& sh, std::vector<Ctx>& ctx) {
-  for (auto& c : ctx) { delete c.doc; delete c.sdoc; }
-  delete sh.shared_doc; delete sh.shared_sdoc; delete sh.pool;
+  for (auto& c : ctx) { delete c.doc; delete c.doca; delete c.sdoc; }
+  delete sh.shared_doc; delete sh.shared_sdoc; delete sh.pool; delete sh.poola;
 }
 
 static void exec_c17(const Plan& p, Outcome& out) {
@@ -264,6 +282,7 @@ static void gen_c17(uint64_t seed, uint64_t run, const std::string& tier, Plan& 
   p.knobs["pct_horizon"] = (int64_t)r.range(20, 300);
   static const int64_t chunks[] = {64, 256, 1024, 65536};
   p.knobs["chunk"] = chunks[r.below(4)];
+  p.knobs["adaptive"] = (int64_t)(mix64(rs ^ 0xada) % 3 == 0);
   {  // stalled-thread fault (own stream so that the plans of earlier versions keep their ops)
     Rng rf(mix64(rs ^ 0x57a11));
     if (rf.chance(family == 2 ? 1 : 1, family == 2 ? 2 : 5)) {
@@ -278,6 +297,9 @@ static void gen_c17(uint64_t seed, uint64_t run, const std::string& tier, Plan& 
   auto text = [&]() { JVal v = JVal::obj(); size_t n = (size_t)r.range(1, 6); for (size_t i = 0; i < n; i++) { std::string k = model::gen_key(r, go); if (v.find(k) < 0) v.o.emplace_back(k, model::gen_value(r, go, 1)); } return model::write(v); };
   auto key = [&]() { return r.chance(1, 3) ? std::string("nokey") + (char)('0' + r.below(3)) : model::gen_key(r, go); };
   std::string shared_text = text();
+  // an object whose first key is long (200..330 bytes) and spelled with escapes: on-demand scanning unescapes it into scratch memory
+  std::string longkey_text;
+  { std::string k((size_t)r.range(200, 330), 'q'); for (size_t i = 3; i < k.size(); i += 17) k[i] = (char)('a' + r.below(26)); JVal v = JVal::obj(); v.o.emplace_back(k, JVal::uint(1)); v.o.emplace_back(model::gen_key(r, go), JVal::uint(2)); model::WriteOpts wo; wo.ws_rng = &r; wo.ws_max = 1; wo.escape_more = true; do { longkey_text.clear(); model::write(v, longkey_text, wo); } while (longkey_text.find('\\') == std::string::npos); }
   if (family == 1) { Op& o = add("Setup"); o.a = {(int64_t)r.below(2)}; o.s = {shared_text}; }
   size_t n = (size_t)r.range(4, tier == "thorough" ? 40 : 24);
   for (size_t i = 0; i < n; i++) {
@@ -295,13 +317,13 @@ static void gen_c17(uint64_t seed, uint64_t run, const std::string& tier, Plan& 
     int64_t which = (int64_t)r.below(2);
     if (family == 0 && m < 3) { Op& o = add("Parse"); o.a = {t}; o.s = {r.chance(1, 6) ? text().substr(0, 5) : text()}; }
     else if (family == 0 && m < 5) { Op& o = add("Add"); o.a = {t, (int64_t)r.range(-9, 9)}; o.s = {model::gen_key(r, go)}; }
-    else if (family == 0 && m < 6) { Op& o = add("Map"); o.a = {t}; }
+    else if (family == 0 && m < 6) { Op& o = add(r.chance(1, 2) ? "Map" : "IndexWrite"); o.a = {t, (int64_t)r.range(-9, 9)}; if (o.kind == "IndexWrite") o.s = {std::string("nokey") + (char)('0' + r.below(3))}; }
     else if (m < 8) { Op& o = add("Index"); o.a = {t, which}; o.s = {key()}; }
     else if (m < 9) { Op& o = add("Find"); o.a = {t, which}; o.s = {key()}; }
     else if (m < 10) { Op& o = add(r.chance(1, 2) ? "Walk" : "Iter"); o.a = {t, which}; }
     else if (m < 11) { Op& o = add(r.chance(1, 2) ? "Dump" : "Ser"); o.a = {t, which}; }
     else if (m < 12) { Op& o = add("AtPtr"); o.a = {t, which}; std::vector<PSpec> ps; PSpec e; e.t = 'k'; e.key = key(); e.n = 0; ps.push_back(e); o.s = {pspec_encode(ps)}; }
-    else if (m < 13) { Op& o = add("OnDemand"); o.a = {t}; std::vector<PSpec> ps; PSpec e; e.t = 'k'; e.key = key(); e.n = 0; ps.push_back(e); o.s = {shared_text, pspec_encode(ps)}; }
+    else if (m < 13) { Op& o = add("OnDemand"); o.a = {t}; std::vector<PSpec> ps; PSpec e; e.t = 'k'; e.key = key(); e.n = 0; ps.push_back(e); o.s = {r.chance(1, 3) ? longkey_text : shared_text, pspec_encode(ps)}; }
     else { Op& o = add(r.chance(1, 2) ? "Eq" : "Update"); o.a = {t, which}; if (o.kind == "Update") o.s = {shared_text, text()}; }
   }
 }
